@@ -26,18 +26,22 @@ def isHandlerStart : Event → Bool
 theorem active_invariant (H : Hash) (cfg : Cfg) (hv : cfg.variant = .fixed) (nS nD : Nat) (ls : List Label) :
     let s := reach H cfg nS nD ls
     s.active = (countedServes s : Int) + (liveTasks s : Int) - (if s.sd then 1 else 0) := by
-  sorry
+  exact (InvF_run H cfg hv nS nD ls).act
 
 /-- No panic: `lastActive` is closed at most once, whatever the schedule. -/
 theorem closes_le_one (H : Hash) (cfg : Cfg) (hv : cfg.variant = .fixed) (nS nD : Nat) (ls : List Label) :
     (reach H cfg nS nD ls).closes ≤ 1 ∧ (reach H cfg nS nD ls).panicked = false := by
-  sorry
+  have h := (InvF_run H cfg hv nS nD ls).cl1
+  refine ⟨h, ?_⟩
+  simp only [St.panicked, decide_eq_false_iff_not]
+  unfold reach
+  omega
 
 /-- `lastActive` is closed exactly when shutdown was requested and nothing is active any more. -/
 theorem closed_iff_drained (H : Hash) (cfg : Cfg) (hv : cfg.variant = .fixed) (nS nD : Nat) (ls : List Label) :
     let s := reach H cfg nS nD ls
     s.closes = 1 ↔ (s.sd = true ∧ countedServes s = 0 ∧ liveTasks s = 0) := by
-  sorry
+  exact (InvF_run H cfg hv nS nD ls).cl2
 
 /-- Shutdown returns nil only after every Serve call has returned and every datagram goroutine
     (hence every started handler) has finished. -/
@@ -45,26 +49,36 @@ theorem nil_after_drain (H : Hash) (cfg : Cfg) (hv : cfg.variant = .fixed) (nS n
     (j : Nat) (c : Bool) (h : (reach H cfg nS nD ls).downs[j]? = some ⟨.returned .nil, c⟩) :
     (∀ pc ∈ (reach H cfg nS nD ls).serves, terminalServe pc = true) ∧
     (∀ t ∈ (reach H cfg nS nD ls).tasks, t.pc = .done) := by
-  sorry
+  have hI := InvF_run H cfg hv nS nD ls
+  have hd := Drained_of_closed hI (hI.nil j c h)
+  have hte : terminalServe = terminalS := by funext pc; cases pc <;> rfl
+  rw [hte]
+  exact ⟨hd.serves, hd.tasks⟩
 
 /-- … and it stays so: after a nil return no handler ever starts (no extension of the schedule adds
     a `handlerStart` event). -/
 theorem no_handler_after_nil (H : Hash) (cfg : Cfg) (hv : cfg.variant = .fixed) (nS nD : Nat) (ls ls' : List Label)
     (j : Nat) (c : Bool) (h : (reach H cfg nS nD ls).downs[j]? = some ⟨.returned .nil, c⟩) :
     ((reach H cfg nS nD (ls ++ ls')).log.filter isHandlerStart) = ((reach H cfg nS nD ls).log.filter isHandlerStart) := by
-  sorry
+  have hI := InvF_run H cfg hv nS nD ls
+  have hd := Drained_of_closed hI (hI.nil j c h)
+  have hhe : isHandlerStart = isHS := by funext e; cases e <;> rfl
+  rw [hhe]
+  unfold reach
+  rw [run_append]
+  exact (Drained_run H cfg ls' _ hd).2
 
 /-- The caller's context error is returned only if that context ended. -/
 theorem ctx_error_only_if_ctx_done (H : Hash) (cfg : Cfg) (nS nD : Nat) (ls : List Label) (j : Nat) (c : Bool)
     (h : (reach H cfg nS nD ls).downs[j]? = some ⟨.returned .ctxErr, c⟩) : c = true := by
-  sorry
+  exact (InvG_run H cfg nS nD ls).ctx j c h
 
 /-- Shutdown closes every registered listener and cancels the request contexts. -/
 theorem shutdown_closes_listeners (H : Hash) (cfg : Cfg) (hv : cfg.variant = .fixed) (nS nD : Nat) (ls : List Label)
     (h : (reach H cfg nS nD ls).sd = true) :
     (reach H cfg nS nD ls).ctxCancelled = true ∧
     ∀ i, (reach H cfg nS nD ls).listening.getD i false = true → (reach H cfg nS nD ls).connClosed.getD i 0 ≥ 1 := by
-  sorry
+  exact (InvF_run H cfg hv nS nD ls).sdc h
 
 /-- Once Shutdown has been requested a later Serve call returns ErrServerShutdown without
     registering, and a running Serve call returns ErrServerShutdown when its read fails. -/
@@ -72,7 +86,8 @@ theorem serve_after_shutdown (H : Hash) (cfg : Cfg) (s : St) (i : Nat) (hsd : s.
     (hi : s.serves[i]? = some .notStarted) :
     ∃ s', step H cfg s (.serveEnter i) = some s' ∧ s'.serves[i]? = some (.returned .errShutdown) ∧
       s'.listening = s.listening ∧ s'.active = s.active := by
-  sorry
+  refine ⟨_, serveEnter_shutdown hsd hi, ?_, rfl, rfl⟩
+  simp [lt_of_getElem?_eq_some hi]
 
 /-- Deadlock freedom: from every reachable state in which shutdown has been requested, the threads
     can all run to completion — every Serve returned (or never started), every datagram goroutine
@@ -84,7 +99,20 @@ theorem no_stuck_state (H : Hash) (cfg : Cfg) (hv : cfg.variant = .fixed) (nS nD
     ∃ ls', let s' := reach H cfg nS nD (ls ++ ls')
       (∀ pc ∈ s'.serves, terminalServe pc = true) ∧ (∀ t ∈ s'.tasks, t.pc = .done) ∧ s'.closes = 1 ∧
       ∀ j c, s'.downs[j]? = some ⟨.waiting, c⟩ → (step H cfg s' (.downReturnNil j)).isSome = true := by
-  sorry
+  have hI := InvF_run H cfg hv nS nD ls
+  obtain ⟨ls', hsd', h1, h2⟩ := drain (H := H) hv (drainMeasure (reach H cfg nS nD ls)) _ hI hsd (Nat.le_refl _)
+  refine ⟨ls', ?_⟩
+  have hI' := InvF_run_from H cfg hv ls' _ hI
+  unfold reach
+  rw [run_append]
+  have hd := Drained_of_counts hI' hsd' h1 h2
+  have hc : (run H cfg (run H cfg (init nS nD) ls) ls').closes = 1 := hI'.cl2.mpr ⟨hsd', h1, h2⟩
+  have hte : terminalServe = terminalS := by funext pc; cases pc <;> rfl
+  rw [hte]
+  refine ⟨hd.serves, hd.tasks, hc, ?_⟩
+  intro j c hj
+  simp only [step, hj, hc]
+  rfl
 
 /-! ### The code as it was (variant `.current`): the window between registration and counting -/
 
@@ -94,17 +122,18 @@ def cfgCurrent : Cfg := { variant := .current, secretOf := fun _ => .error }
 theorem current_nil_while_serving :
     let s := run (fun _ => []) cfgCurrent (init 1 1) [.serveEnter 0, .downEnter 0, .downReturnNil 0]
     s.downs[0]? = some ⟨.returned .nil, false⟩ ∧ s.serves[0]? = some .registered := by
-  sorry
+  decide
 
 /-- counterexample 2: … and when that Serve call returns, `lastActive` is closed a second time (panic) -/
 theorem current_double_close :
     (run (fun _ => []) cfgCurrent (init 1 1) [.serveEnter 0, .downEnter 0, .serveCount 0, .serveReadErr 0]).closes = 2 := by
-  sorry
+  decide
 
 /-! Non-vacuity: a schedule in which a handler runs, shutdown waits for it, and everything drains. -/
 example : (reach (fun _ => zeros 16) { secretOf := fun _ => .secret [1] } 1 1
     [.serveEnter 0, .serveRecv 0 0 ([1, 7, 0, 20] ++ zeros 16), .taskRun 0, .downEnter 0, .downReturnNil 0,
      .taskFinish 0, .serveReadErr 0, .downReturnNil 0]).downs[0]? = some ⟨.returned .nil, false⟩ := by
-  sorry
+  simp only [reach, run, step, classify_example]
+  decide
 
 end RV.C07
